@@ -354,6 +354,10 @@ func (c *Conn) reader(ctx context.Context) (_ MessageType, _ io.Reader, err erro
 	}
 	defer c.readMu.unlock()
 
+	if atomic.LoadInt32(&c.readClose) == 1 {
+		return 0, nil, net.ErrClosed
+	}
+
 	if !c.msgReader.fin {
 		return 0, nil, errors.New("previous message not read to completion")
 	}
@@ -417,6 +421,10 @@ func (mr *msgReader) Read(p []byte) (n int, err error) {
 		return 0, fmt.Errorf("failed to read: %w", err)
 	}
 	defer mr.c.readMu.unlock()
+
+	if atomic.LoadInt32(&mr.c.readClose) == 1 {
+		return 0, fmt.Errorf("failed to read: %w", net.ErrClosed)
+	}
 
 	n, err = mr.limitReader.Read(p)
 	// mr.dict is nil once the connection has been closed, which can happen
